@@ -683,15 +683,24 @@ def gifProp0 (truth obs : Toks) : String :=
           let want : Option Toks := if n > 1 && loop ≥ 0 then
             some ["255", "2", "4e45545343415045322e30" ++ hexOfBytes [1, UInt8.ofNat (loop.toNat % 256), UInt8.ofNat (loop.toNat / 256)]] else none
           let sg : List (String × Toks) := (splitAt (fun x => x == "I" || x == "X" || x == "T") rest).2
-          let got : Option Toks := (sg.find? (fun (s : String × Toks) => s.1 == "X" && s.2.head? == some "255")).map (fun (s : String × Toks) => s.2)
+          let got : Option Toks := (sg.find? (fun (s : String × Toks) => s.1 == "X" && s.2.head? == some "255" && s.2.drop 1 != ["1", "-"])).map (fun (s : String × Toks) => s.2)
           got != want
         | _, _ => true) then "PROPFAIL gif: NETSCAPE loop extension"
     else if kvNat truth "gct" == some 1 && !((kvGet truth "pal").map (fun p => gcm.startsWith p)).getD false then "PROPFAIL gif: global colour map does not start with the palette"
     else
-    let (_, tsegs) := splitAt (· == "I") truth
+    let (_, tall) := splitAt (fun x => x == "I" || x == "J") truth
+    let tsegs := tall.filter (·.1 == "I")
+    let jsegs := tall.filter (·.1 == "J")
+    -- hand-made extensions without sub-blocks: their function codes, in order
+    let wantXe : List String := match kvGet truth "xe" with
+      | some "~" => []
+      | some l => l.splitOn ","
+      | none => []
     let (_, segs) := splitAt (fun x => x == "I" || x == "X" || x == "T") rest
     let imgs := (segs.filter (·.1 == "I")).map (·.2)
-    if imgs.length != tsegs.length then s!"PROPFAIL gif: {imgs.length} images, {tsegs.length} written" else
+    let gotXe : List String := (segs.filter (fun (s : String × Toks) => s.1 == "X" && s.2.drop 1 == ["1", "-"])).map (fun (s : String × Toks) => s.2.headD "?")
+    if imgs.length != tsegs.length + jsegs.length then s!"PROPFAIL gif: {imgs.length} images, {tsegs.length + jsegs.length} written" else
+    if gotXe != wantXe then s!"PROPFAIL gif: extensions without sub-blocks {gotXe}, written {wantXe}" else
     if (segs.find? (·.1 == "T")).map (·.2) != some ["59"] then "PROPFAIL gif: trailer" else
     -- delays: a graphic control extension (0xf9 = 249) qualifies the next image; none = delay 0
     let rec go (i : Nat) (ts : List (String × Toks)) (bl : List (String × Toks)) (pending : Option (Nat × Nat)) : String :=
@@ -718,6 +727,14 @@ def gifProp0 (truth obs : Toks) : String :=
             else if some ibd != (if lcm == "1" then kvGet truth "lbits" else some "1") then s!"PROPFAIL gif: image {i} bit depth"
             else if some cs != (kvNat truth "lbits").map (fun b => toString (max 2 b)) then s!"PROPFAIL gif: image {i} LZW code size"
             else go (i+1) ts bl none
+          | [], l :: tp :: iw :: ih :: lcm :: il :: ibd :: cs :: lmap :: nsub :: bytes :: "P" :: pix :: _ =>
+            -- a hand-made image without data: descriptor fields as written, one array element (the terminator), no bytes
+            match jsegs[i - tsegs.length]? with
+            | some (_, t) =>
+              if [some l, some tp, some iw, some ih, some cs] != [kvGet t "x", kvGet t "y", kvGet t "w", kvGet t "h", kvGet t "cs"] then s!"PROPFAIL gif: data-less image {i} descriptor"
+              else if [lcm, il, ibd, lmap, nsub, bytes, pix] != ["0", "0", "1", "~", "1", "-", "-"] then s!"PROPFAIL gif: data-less image {i} is not shown as empty"
+              else go (i+1) [] bl none
+            | none => s!"PROPFAIL gif: unexpected image {i}"
           | _, _ => s!"PROPFAIL gif: image {i} shape"
         else go i ts bl pending
     go 0 tsegs segs none
@@ -753,7 +770,8 @@ def gifProp (truth obs : Toks) : String :=
     else r
   else r
 
-def gifSubsToks (subs : List GifSub) : Toks := [toString subs.length, hexB (subs.flatMap (·.data))]
+/-- a chain without sub-blocks is an array of one element (the terminator) in fq's tree -/
+def gifSubsToks (subs : List GifSub) : Toks := [if subs.isEmpty then "1" else toString subs.length, hexB (subs.flatMap (·.data))]
 
 def gifBlockToks : GifBlock → Toks
   | .ext _ code subs => ["X", toString code] ++ gifSubsToks subs
@@ -904,6 +922,8 @@ def stepC15 (op obs : String) : String :=
     | some file =>
       let o := words obs
       if o.head? == some "panic" then s!"PROPFAIL {format}: fq panicked"
+      else if o.head? == some "err" && o.contains "JQERR" then
+        s!"PROPFAIL {format}: decode error on an intact file (the tree is partial, the projection could not be completed)"
       else if o.head? == some "noline" || o.contains "JQERR" then s!"BADOP projection failed: {obs.take 200}"
       else if format == "gzip" then stepGzip file truth o
       else if format == "tar" then stepTar file truth o
